@@ -72,6 +72,15 @@ impl Recorder for Dbl {
     fn register_counter(&self, k: &Key, m: &Metadata<'_>) -> Counter {
         self.st.content.lock().unwrap().push(format!("register_counter|{}|{:?}|{:?}|{}", k.name(), k.labels().map(|l| format!("{}={}", l.key(), l.value())).collect::<Vec<_>>(), m.level(), m.target()));
         self.call();
+        if k.name() == "boom" {
+            // a recorder method that fails: the emitting thread survives (the panic is caught by the caller)
+            std::panic::resume_unwind(Box::new("the wrapped recorder panics inside a call"));
+        }
+        if k.name() == "nest" {
+            // a recorder that emits a metric of its own while it handles a call (through the macros, i.e. through
+            // whatever is installed globally: the wrapper again)
+            metrics::counter!("inner").increment(1);
+        }
         Counter::from_arc(Arc::new(Cnt(self.st.clone())))
     }
     fn register_gauge(&self, k: &Key, m: &Metadata<'_>) -> Gauge {
@@ -318,7 +327,7 @@ fn install_ok_part(res: &mut PartResult, recover: bool) {
             format!("register_gauge|g|[]|{:?}|tgt", Level::DEBUG),
             format!("register_histogram|h|[]|{:?}|{}", Level::INFO, module_path!()),
         ];
-        for (i, chunk) in got.chunks(6).enumerate() {
+        for (i, chunk) in got.chunks(6).take(2).enumerate() {
             if chunk != &want[..chunk.len().min(6)] || chunk.len() != 6 {
                 return Err(format!("round {} of the six operations reached the recorder as {:?}, expected {:?}", i, chunk, want));
             }
@@ -358,6 +367,23 @@ fn install_ok_part(res: &mut PartResult, recover: bool) {
     if entered != vec![1; 12] || st.counter_value.load(Ordering::SeqCst) != 4 {
         res.violation("emission-lost-while-handle-alive", format!("six operations through the installed wrapper, twice (the second time from a destructor during unwinding): {} of 12 reached the recorder, counter value {} (4 expected)", entered.len(), st.counter_value.load(Ordering::SeqCst)), json!({}));
     }
+    // a call during which the wrapped recorder panics (caught), an emission on the same thread afterwards, and a call
+    // during which the recorder emits through the macros itself: all reach the recorder while the handle is alive
+    {
+        let prev = std::panic::take_hook();
+        std::panic::set_hook(Box::new(|_| {}));
+        CUR_EMISSION.with(|c| c.set(1));
+        let _ = std::panic::catch_unwind(|| metrics::counter!("boom").increment(1));
+        std::panic::set_hook(prev);
+        metrics::counter!("after_boom").increment(1);
+        metrics::counter!("nest").increment(1);
+        res.transitions += 3;
+        let names: Vec<String> = st.content.lock().unwrap().iter().skip(12).map(|c| c.split('|').nth(1).unwrap_or("").to_string()).collect();
+        if names != vec!["boom", "after_boom", "nest", "inner"] {
+            res.violation("emission-lost-while-handle-alive", format!("a call in which the recorder panics, an emission after it on the same thread, and a call in which the recorder itself emits (nested): the recorder saw registrations of {:?}, expected [boom, after_boom, nest, inner]", names), json!({}));
+        }
+    }
+    const LIVE: usize = 16; // 12 + boom, after_boom, nest, inner
     // a second install on top of it fails and hands its recorder back
     let st2 = Arc::new(Stats::default());
     let (tx2, rx2) = std::sync::mpsc::channel();
@@ -398,7 +424,7 @@ fn install_ok_part(res: &mut PartResult, recover: bool) {
     }
     res.transitions += 6;
     let entered = st.entered.lock().unwrap().clone();
-    if entered.len() != 12 || st.counter_value.load(Ordering::SeqCst) != 4 || st.entered_after_end.load(Ordering::SeqCst) {
+    if entered.len() != LIVE || st.counter_value.load(Ordering::SeqCst) != 4 + 3 || st.entered_after_end.load(Ordering::SeqCst) {
         res.violation("wrapper-not-inert-after-recovery", format!("operations made after {} still reached the recorder: entered {:?}, counter {}", if recover { "into_inner()" } else { "the handle was dropped" }, entered, st.counter_value.load(Ordering::SeqCst)), json!({}));
     }
     if st.drops.load(Ordering::SeqCst) != 1 {
